@@ -141,16 +141,15 @@ func main() {
 			{Op: "prepare", Key: 2, Parent: -1, L: L(2), MOK: true},
 			{Op: "cleanup"},
 		}},
-		// internal commit fails after a successful backend Mount: empty / oversized target ref (no fallback, key not
+		// internal commit fails after a successful backend Mount: empty target ref (no fallback, key not
 		// reusable, mount stays); Commit to such a name; labels outside the snapshot namespace and empty-valued labels
 		{Ops: []snapx.Op{
 			{Op: "prepare", Key: 0, Parent: -1, L: snapx.Labels{T: snapx.BadEmpty, E: 2}, MOK: true},
 			{Op: "stat", Name: 0},
 			{Op: "mounts", Key: 0},
-			{Op: "prepare", Key: 1, Parent: -1, L: snapx.Labels{T: snapx.BadLong, U: 1}, MOK: true},
+			{Op: "prepare", Key: 1, Parent: -1, L: snapx.Labels{T: snapx.BadEmpty, U: 1}, MOK: true},
 			{Op: "prepare", Key: 2, Parent: -1, L: snapx.Labels{T: snapx.BadEmpty}, MOK: false},
 			{Op: "commit", Name: snapx.BadEmpty, Key: 2, L: L(-1)},
-			{Op: "commit", Name: snapx.BadLong, Key: 2, L: L(-1)},
 			{Op: "remove", Key: 0},
 			{Op: "prepare", Key: 3, Parent: -1, L: snapx.Labels{T: 4, U: 1, E: 3}, MOK: true},
 			{Op: "stat", Name: 4},
